@@ -313,7 +313,11 @@ func c09Run(j c09Job, c *isoCtx) {
 			same = strings.Join(formatAll(want), "\n") == strings.Join(formatAll(got), "\n")
 		}
 		if !same {
-			c.Violation(c09Sig(j, "vector-runtime-differs-from-sequential", formatAll(got)...), map[string]any{"case": j.name, "input": j.input, "sequential": formatAll(want), "vector": formatAll(got)})
+			answer := formatAll(got)
+			if !j.seqCmp {
+				answer = sortedCopy(answer) // the order of an aggregate's rows is not defined (map iteration)
+			}
+			c.Violation(c09Sig(j, "vector-runtime-differs-from-sequential", answer...), map[string]any{"case": j.name, "input": j.input, "sequential": formatAll(want), "vector": formatAll(got)})
 		}
 	}
 }
